@@ -13,6 +13,9 @@ deriving Repr, DecidableEq
 
 def f32 : FloatFmt := ⟨32, 24⟩
 def f64 : FloatFmt := ⟨64, 53⟩
+/-- `half::f16` / `half::bf16` (`sealed_float! { f16(u16, i16, 11) }`, `{ bf16(u16, i16, 8) }`, cargo feature `f16`) -/
+def f16 : FloatFmt := ⟨16, 11⟩
+def bf16 : FloatFmt := ⟨16, 8⟩
 
 namespace FloatFmt
 variable (F : FloatFmt)
